@@ -41,6 +41,16 @@ struct Replay {
     data_pos: usize,
     sink: Vec<u8>,
     fill: Vec<u8>,
+    /// outcome of every required-method call, for the *ordered* replay families
+    recs: Vec<Rec>,
+}
+
+/// One required-method call of a plain run and what it produced.
+#[derive(Clone, Debug, PartialEq)]
+enum Rec {
+    Write(Result<usize, io::ErrorKind>),
+    Flush(Result<(), io::ErrorKind>),
+    Delay(u32),
 }
 
 static ST: Mutex<Replay> = Mutex::new(Replay {
@@ -51,6 +61,7 @@ static ST: Mutex<Replay> = Mutex::new(Replay {
     data_pos: 0,
     sink: vec![],
     fill: vec![],
+    recs: vec![],
 });
 
 fn st() -> std::sync::MutexGuard<'static, Replay> {
@@ -66,6 +77,7 @@ fn reset(script: Vec<Step>, data: Vec<u8>) {
     s.data_pos = 0;
     s.sink.clear();
     s.fill.clear();
+    s.recs.clear();
 }
 
 fn next_step() -> Step {
@@ -90,6 +102,12 @@ fn other_err() -> io::Error {
 // ---- std::io::Write
 
 fn rp_write(buf: &[u8]) -> io::Result<usize> {
+    let r = rp_write_inner(buf);
+    st().recs.push(Rec::Write(r.as_ref().map(|n| *n).map_err(|e| e.kind())));
+    r
+}
+
+fn rp_write_inner(buf: &[u8]) -> io::Result<usize> {
     log(format!("write({buf:?})"));
     match next_step() {
         Step::Take(n) => {
@@ -105,10 +123,117 @@ fn rp_write(buf: &[u8]) -> io::Result<usize> {
 
 fn rp_flush() -> io::Result<()> {
     log("flush()".into());
-    match next_step() {
+    let r = match next_step() {
         Step::Fail => Err(other_err()),
         _ => Ok(()),
+    };
+    st().recs.push(Rec::Flush(r.as_ref().map(|_| ()).map_err(|e| e.kind())));
+    r
+}
+
+// ---- ordered replay: the required calls observed on the plain struct become a chain of `next_call` patterns
+// (runs of equal outcomes = one stage with an exact count; neighbouring stages of one method are randomly joined
+// into one pattern with a `then()` series or split into separate patterns). Every stage answers with its own recorded
+// outcome, so a stage or pattern picked out of turn changes results, logged calls or written bytes.
+
+fn stages_of(recs: &[Rec], rng: &mut Rng) -> Vec<(Rec, usize)> {
+    let mut stages: Vec<(Rec, usize)> = vec![];
+    for r in recs {
+        match stages.last_mut() {
+            // a run of equal outcomes is sometimes cut in two
+            Some((last, n)) if last == r && !rng.chance(1, 5) => *n += 1,
+            _ => stages.push((r.clone(), 1)),
+        }
     }
+    stages
+}
+
+fn same_method(a: &Rec, b: &Rec) -> bool {
+    std::mem::discriminant(a) == std::mem::discriminant(b)
+}
+
+fn write_answer(rec: Rec) -> std::sync::Arc<dyn Fn(&mut Unimock, &[u8]) -> io::Result<usize> + Send + Sync> {
+    std::sync::Arc::new(move |_: &mut Unimock, buf: &[u8]| {
+        log(format!("write({buf:?})"));
+        match &rec {
+            Rec::Write(Ok(n)) => {
+                st().sink.extend_from_slice(&buf[..(*n).min(buf.len())]);
+                Ok(*n)
+            }
+            Rec::Write(Err(kind)) => Err(io::Error::new(*kind, "scripted failure")),
+            _ => unreachable!(),
+        }
+    })
+}
+
+fn flush_answer(rec: Rec) -> std::sync::Arc<dyn Fn(&mut Unimock) -> io::Result<()> + Send + Sync> {
+    std::sync::Arc::new(move |_: &mut Unimock| {
+        log("flush()".into());
+        match &rec {
+            Rec::Flush(Ok(())) => Ok(()),
+            Rec::Flush(Err(kind)) => Err(io::Error::new(*kind, "scripted failure")),
+            _ => unreachable!(),
+        }
+    })
+}
+
+fn delay_answer(rec: Rec) -> std::sync::Arc<dyn Fn(&mut Unimock, u32) + Send + Sync> {
+    std::sync::Arc::new(move |_: &mut Unimock, ns: u32| {
+        log(format!("delay_ns({ns})"));
+        let _ = &rec;
+    })
+}
+
+fn ordered_mock(recs: &[Rec], rng: &mut Rng, partial: bool) -> (Unimock, usize) {
+    use ehm::delay::DelayNsMock;
+    let stages = stages_of(recs, rng);
+    let mut c = unimock::verif::DynClause::new();
+    let mut patterns = 0;
+    let mut i = 0;
+    while i < stages.len() {
+        let mut j = i + 1;
+        while j < stages.len() && same_method(&stages[i].0, &stages[j].0) && rng.chance(1, 2) {
+            j += 1;
+        }
+        patterns += 1;
+        match &stages[i].0 {
+            Rec::Write(_) => {
+                let mut q = WriteMock::write.next_call(matching!(_)).answers_arc(write_answer(stages[i].0.clone()));
+                for k in i..j {
+                    let qr = q.n_times(stages[k].1);
+                    if k + 1 == j {
+                        c.push(qr);
+                        break;
+                    }
+                    q = qr.then().answers_arc(write_answer(stages[k + 1].0.clone()));
+                }
+            }
+            Rec::Flush(_) => {
+                let mut q = WriteMock::flush.next_call(matching!()).answers_arc(flush_answer(stages[i].0.clone()));
+                for k in i..j {
+                    let qr = q.n_times(stages[k].1);
+                    if k + 1 == j {
+                        c.push(qr);
+                        break;
+                    }
+                    q = qr.then().answers_arc(flush_answer(stages[k + 1].0.clone()));
+                }
+            }
+            Rec::Delay(_) => {
+                let mut q = DelayNsMock::delay_ns.next_call(matching!(_)).answers_arc(delay_answer(stages[i].0.clone()));
+                for k in i..j {
+                    let qr = q.n_times(stages[k].1);
+                    if k + 1 == j {
+                        c.push(qr);
+                        break;
+                    }
+                    q = qr.then().answers_arc(delay_answer(stages[k + 1].0.clone()));
+                }
+            }
+        }
+        i = j;
+    }
+    (mk(partial, c), patterns)
 }
 
 struct PlainWriter;
@@ -433,6 +558,47 @@ fn drive_fmt<T: std::fmt::Display + std::fmt::Debug>(t: &T) -> Vec<String> {
     ]
 }
 
+// ---- a user trait with Display + Debug supertraits whose provided methods format `self`: inside a delegated
+// default body `self` is the internal helper, whose Display / Debug must be answered by the mock's own entries
+
+#[unimock(api=DescribeMock)]
+trait Describe: std::fmt::Debug + std::fmt::Display {
+    fn tag(&self) -> u32;
+    fn describe(&self) -> String {
+        format!("{}:{:?}|{}|{:#?}", self.tag(), self, self, self)
+    }
+    fn describe_mut(&mut self) -> String {
+        format!("{:>9}/{:?}/{}", self, self, self.tag())
+    }
+    fn describe_owned(self) -> String
+    where
+        Self: Sized,
+    {
+        format!("{:?}-{}", self, self)
+    }
+}
+
+impl Describe for PlainFmt {
+    fn tag(&self) -> u32 {
+        log("tag()".into());
+        7
+    }
+}
+
+fn drive_describe<T: Describe>(mut t: T, rng: &mut Rng) -> Vec<String> {
+    let mut out = vec![];
+    for _ in 0..rng.range(1, 4) {
+        match rng.below(4) {
+            0 => out.push(t.describe()),
+            1 => out.push(t.describe_mut()),
+            2 => out.push(format!("{t:?}|{t}")),
+            _ => out.push(t.tag().to_string()),
+        }
+    }
+    out.push(t.describe_owned());
+    out
+}
+
 // ---- embedded-hal
 
 use embedded_hal::delay::DelayNs;
@@ -475,7 +641,21 @@ fn ok_or_fail() -> bool {
 impl DelayNs for PlainHal {
     fn delay_ns(&mut self, ns: u32) {
         log(format!("delay_ns({ns})"));
+        st().recs.push(Rec::Delay(ns));
     }
+}
+
+fn drive_delay<H: DelayNs>(h: &mut H, rng: &mut Rng) -> Vec<String> {
+    for _ in 0..rng.range(1, 5) {
+        match rng.below(4) {
+            0 => h.delay_us((rng.next_u64() % 9_000_000) as u32),
+            // more than 4294 ms do not fit one delay_ns call: the upstream body repeats the maximal chunk
+            1 => h.delay_ms((rng.next_u64() % 30_000) as u32),
+            2 => h.delay_ms((rng.next_u64() % 5) as u32),
+            _ => h.delay_ns(rng.next_u64() as u32 % 3),
+        }
+    }
+    vec![]
 }
 impl embedded_hal::digital::ErrorType for PlainHal {
     type Error = HalErr;
@@ -1138,6 +1318,9 @@ const COVERED: &[(&str, &[&str])] = &[
                  "Hasher::write_u64", "Hasher::write_u128", "Hasher::write_usize", "Hasher::write_i8", "Hasher::write_i16",
                  "Hasher::write_i32", "Hasher::write_i64", "Hasher::write_i128", "Hasher::write_isize"]),
     ("fmt", &["Display::fmt", "Debug::fmt"]),
+    ("supertrait", &["Display::fmt", "Debug::fmt"]),
+    ("write-ordered", &["Write::write", "Write::flush", "Write::write_all"]),
+    ("delay-ordered", &["DelayNs::delay_ns", "DelayNs::delay_us", "DelayNs::delay_ms"]),
     ("hal", &["DelayNs::delay_ns", "DelayNs::delay_us", "DelayNs::delay_ms", "InputPin::is_high", "InputPin::is_low",
               "OutputPin::set_low", "OutputPin::set_high", "OutputPin::set_state", "StatefulOutputPin::is_set_high",
               "StatefulOutputPin::is_set_low", "StatefulOutputPin::toggle"]),
@@ -1237,6 +1420,55 @@ fn run_family(family: &str, use_mock: bool, partial: bool, seed: u64) -> Run {
                 drive_fmt(&PlainFmt)
             }
         }
+        "supertrait" => {
+            if use_mock {
+                let u = mk(partial, (
+                    DisplayMock::fmt.each_call(matching!(_)).answers(&|_, f| rp_fmt(f, "display")),
+                    DebugMock::fmt.each_call(matching!(_)).answers(&|_, f| rp_fmt(f, "debug")),
+                    DescribeMock::tag.each_call(matching!()).answers(&|_| {
+                        log("tag()".into());
+                        7
+                    }),
+                ))
+                .no_verify_in_drop();
+                drive_describe(u, &mut drive_rng)
+            } else {
+                drive_describe(PlainFmt, &mut drive_rng)
+            }
+        }
+        "write-ordered" => {
+            if use_mock {
+                // the plain run tells which required calls happen and what each one produced
+                let mut plain_rng = Rng::new(seed ^ 0xD21E);
+                drive_write(&mut PlainWriter, &mut plain_rng, &payload);
+                let recs = st().recs.clone();
+                let (script, data) = {
+                    let s = st();
+                    (s.script.clone(), s.data.clone())
+                };
+                reset(script, data);
+                let (mut u, _patterns) = ordered_mock(&recs, &mut rng, partial);
+                let mut out = drive_write(&mut u, &mut drive_rng, &payload);
+                finish(u, &mut out);
+                out
+            } else {
+                drive_write(&mut PlainWriter, &mut drive_rng, &payload)
+            }
+        }
+        "delay-ordered" => {
+            if use_mock {
+                let mut plain_rng = Rng::new(seed ^ 0xD21E);
+                drive_delay(&mut PlainHal { high: false }, &mut plain_rng);
+                let recs = st().recs.clone();
+                reset(vec![], vec![]);
+                let (mut u, _patterns) = ordered_mock(&recs, &mut rng, partial);
+                let mut out = drive_delay(&mut u, &mut drive_rng);
+                finish(u, &mut out);
+                out
+            } else {
+                drive_delay(&mut PlainHal { high: false }, &mut drive_rng)
+            }
+        }
         "hal" => {
             if use_mock {
                 let mut u = mock_hal(partial);
@@ -1304,6 +1536,8 @@ fn main() {
     };
     let cases = get("--cases", 1000);
     let seed = get("--seed", 1);
+    // --family NAME: only that family (used as a stage by other properties' checks)
+    let only: Option<String> = args.iter().position(|a| a == "--family").and_then(|i| args.get(i + 1).cloned());
     std::panic::set_hook(Box::new(|_| {}));
     let mut violations = 0u64;
     let mut evaluations = 0u64;
@@ -1312,6 +1546,9 @@ fn main() {
     let mut distinct: std::collections::HashSet<u64> = Default::default();
     let mut samples = vec![];
     for (family, _) in COVERED {
+        if only.as_deref().map(|o| o != *family).unwrap_or(false) {
+            continue;
+        }
         for index in 0..cases {
             let s = mix3(seed, harness::prng::fnv(family.as_bytes()), index);
             let plain = std::panic::catch_unwind(|| run_family(family, false, false, s));
